@@ -293,6 +293,33 @@ fn panicking_get_or_init(panics: usize) -> Option<String> {
     if bad.is_empty() { None } else { Some(bad.join("; ")) }
 }
 
+/// a zero-sized seed with a destructor is still a seed: dropped exactly once
+fn zero_sized_seed() -> Option<String> {
+    static ZDROPS: AtomicU64 = AtomicU64::new(0);
+    struct Z;
+    impl Drop for Z {
+        fn drop(&mut self) {
+            ZDROPS.fetch_add(1, Ordering::SeqCst);
+        }
+    }
+    let mut bad = vec![];
+    for init in [false, true] {
+        ZDROPS.store(0, Ordering::SeqCst);
+        let cell: OnceInitCell<Z, u64> = OnceInitCell::new(Z);
+        if init {
+            cell.get_or_init(|_| 3);
+            if ZDROPS.load(Ordering::SeqCst) != 1 {
+                bad.push(format!("zero-sized seed: dropped {} times right after a successful initialisation", ZDROPS.load(Ordering::SeqCst)));
+            }
+        }
+        drop(cell);
+        if ZDROPS.load(Ordering::SeqCst) != 1 {
+            bad.push(format!("zero-sized seed (initialised = {init}): dropped {} times after the cell was dropped", ZDROPS.load(Ordering::SeqCst)));
+        }
+    }
+    if bad.is_empty() { None } else { Some(bad.join("; ")) }
+}
+
 /// a cell built with its value: initialised from the start, no initialiser ever runs, the value is
 /// dropped once with the cell
 fn with_value_scenario() -> Option<String> {
@@ -414,8 +441,9 @@ pub fn run(a: &Args) {
         evals += 1;
         bad.extend(panicking_get_or_init(k));
     }
-    evals += 1;
+    evals += 2;
     bad.extend(with_value_scenario());
+    bad.extend(zero_sized_seed());
     evals += 2;
     bad.extend(get_does_not_block());
     bad.extend(get_during_seed_destructor());
